@@ -2266,9 +2266,9 @@ def extract_offset(e):
     "separate expression e into (e' + C) with C cst offset."
     x = e.simplify().unsigned()
     if x._is_eqn and x.r._is_cst:
-        if e.op.symbol == OP_ADD:
+        if x.op.symbol == OP_ADD:
             return (x.l, x.r.value)
-        elif e.op.symbol == OP_MIN:
+        elif x.op.symbol == OP_MIN:
             return (x.l, -x.r.value)
     return (x, 0)
 
